@@ -292,6 +292,13 @@ def run(ck, facts):
     # final else -> shared_config.set(key, value)
     shared_sets = [x for x in C.walk(C.fn_body(cs)) if x.get("k") == "mcall" and x.get("m") == "set" and any(y.get("k") == "field" and y.get("n") == "shared_config" for y in C.walk(x["recv"]))]
     ck.expect(len(shared_sets) == 1 and C.strip(shared_sets[0]["a"][0]).get("n") == "key", "R3", "Config::set/unscoped->shared", "", "unscoped keys are not stored into the shared config under their own name", C.loc(cs))
+    # the keys a language prefix may override are exactly the keys the shared config understands (sibling tables: overrides_shared <-> SharedConfig::set)
+    osf = tool.fn("config::SharedConfig::overrides_shared")
+    os_keys = {l_ for l_ in C.str_lits(C.fn_body(osf)) + C.pattern_str_lits(C.fn_body(osf)) if re.fullmatch(r"[a-z_]{3,}", l_)}
+    set_keys = {lit for lit, _, _ in key_arms(tool.fn("config::SharedConfig::set"))}
+    ck.expect(os_keys == set_keys and len(set_keys) >= 2, "R3", "SharedConfig/overrides_shared-keys", str(sorted(os_keys)),
+              "overrides_shared recognises %s while SharedConfig::set understands %s: a language-scoped `%s` never reaches the override table and is silently ignored" %
+              (sorted(os_keys), sorted(set_keys), "kotlin." + (sorted(set_keys - os_keys) or ["?"])[0]), C.loc(osf))
     go = tool.fn("config::Config::get_overridden")
     gb = C.fn_body(go)
     fmt = [C.macro_strings(n) for n in C.walk(gb) if n.get("k") == "macro" and n.get("name") == "format"]
